@@ -92,7 +92,33 @@ func accept(pk []byte, topic string) (bool, string) {
 	return true, txt
 }
 
+var lastKey []byte
+
+// genKey: mostly fresh keys; every few keys one that shares a prefix (first 1..47 bytes) with the previous key and
+// differs right after it — a mapping that depends on fewer (or more) bytes than the real one, or that remembers
+// earlier keys, shows up on such families
 func genKey(r *hx.Rng) []byte {
+	if lastKey != nil && len(lastKey) >= 8 && r.Chance(30) {
+		k := append([]byte(nil), lastKey...)
+		p := r.Pick(3, 4, 4, 4, 5, 6, 47)
+		if p >= len(k) {
+			p = len(k) - 1
+		}
+		k[p] += byte(1 + r.Intn(255))
+		for i := p + 1; i < len(k); i++ {
+			if r.Chance(50) {
+				k[i] = byte(r.U64())
+			}
+		}
+		lastKey = k
+		return k
+	}
+	k := genKeyFresh(r)
+	lastKey = k
+	return k
+}
+
+func genKeyFresh(r *hx.Rng) []byte {
 	switch r.Intn(10) {
 	case 0:
 		return r.Bytes(r.Intn(6)) // short / malformed
@@ -107,6 +133,14 @@ func genKey(r *hx.Rng) []byte {
 	default:
 		return r.Bytes(48)
 	}
+}
+
+func key48(r *hx.Rng) []byte {
+	k := genKey(r)
+	for len(k) < 48 {
+		k = append(k, byte(r.U64()))
+	}
+	return k[:48]
 }
 
 func genStr(r *hx.Rng) []byte {
@@ -170,11 +204,11 @@ func main() {
 			}
 			doOp(run, []string{"basename", hx.Hex(s)})
 		case 4:
-			doOp(run, []string{"pubtopics", hx.Hex(r.Bytes(48))})
+			doOp(run, []string{"pubtopics", hx.Hex(key48(r))})
 		case 5:
 			doOp(run, []string{"subtopics", hx.Hex(genKey(r))})
 		case 6:
-			pk := r.Bytes(48)
+			pk := key48(r)
 			var topic string
 			switch r.Intn(4) {
 			case 0:
@@ -263,6 +297,11 @@ func doOp(run *hx.Run, w []string) {
 		}
 		if len(pk) >= 5 && (sn < 0 || sn >= commons.Subnets()) {
 			run.Violate("C18/subnet-out-of-range", hx.Sprintf("key %x -> subnet %d", pk, sn), line)
+		}
+		if len(t) != 1 || t[0] != commons.SubnetTopicID(sn) {
+			// the node advertises / subscribes subnets through ValidatorSubnet (p2pNetwork.UpdateSubnets) and publishes through
+			// ValidatorTopicID: both must name the same subnet for every key, whatever keys were seen before
+			run.Violate("C18/topicid-differs-from-subnet-mapping", hx.Sprintf("key %x: ValidatorTopicID %v but ValidatorSubnet %d", pk, t, sn), line)
 		}
 		if len(pk) < 5 && (len(t) != 1 || t[0] != commons.UnknownSubnet) {
 			run.Violate("C18/short-key-not-unknown", hx.Sprintf("key %x -> %v", pk, t), line)
